@@ -1,5 +1,5 @@
 //! C06: BinnedCoverage / SparseBinnedCoverage count every bin a tag overlaps, and only those.
-use super::c05::{f64_tok, gen_regions, gen_tag};
+use super::c05::{f64_tok, gen_regions, gen_tag, ty_range, N_TYPES};
 use super::common::*;
 use crate::rng::Rng;
 use crate::runner::{Case, PropDef, Tier};
@@ -37,7 +37,9 @@ fn valid(c: &C) -> bool {
     // the observable is the whole matrix after every op: keep (total bins) x (ops) enumerable
     c.bin >= 1 && c.regions.iter().all(|r| r.start < r.end && (r.end - r.start).div_ceil(c.bin) <= 3000)
         && c.regions.iter().map(|r| (r.end - r.start).div_ceil(c.bin)).sum::<u64>() * (c.ops.len() as u64 + 1) <= 12_000
-        && c.ops.iter().all(|o| match o { Op::Tag(t, k) => t.start < t.end && (c.ty == 0 || *k >= 0), Op::Reset => true })
+        && c.ops.iter().all(|o| match o { Op::Tag(t, k) => t.start < t.end && (ty_range(c.ty).0 || *k >= 0) && (*k as i128).abs() <= ty_range(c.ty).1, Op::Reset => true })
+        // narrow counter types: no bin's count can leave the type's exact range (bound: the sum of all |k|); the total may
+        && (c.ty < 2 || c.ops.iter().map(|o| match o { Op::Tag(t, k) if c.regions.iter().any(|r| r.chrom == t.chrom && t.start < r.end && r.start < t.end) => (*k as i128).abs(), _ => 0 }).sum::<i128>() <= ty_range(c.ty).1)
 }
 
 macro_rules! run_typed {
@@ -91,7 +93,8 @@ macro_rules! run_typed {
 fn exec(t: &[String]) -> Option<String> {
     let c = dec(t)?;
     let fl = split_flavour(t).1;
-    Some(if c.ty == 0 { run_typed!(i64, &c, fl) } else { run_typed!(u64, &c, fl) })
+    Some(match c.ty { 0 => run_typed!(i64, &c, fl), 1 => run_typed!(u64, &c, fl), 2 => run_typed!(u8, &c, fl), 3 => run_typed!(u16, &c, fl), 4 => run_typed!(i32, &c, fl),
+                      5 => run_typed!(f32, &c, fl), 6 => run_typed!(f64, &c, fl), 7 => run_typed!(i8, &c, fl), _ => run_typed!(u32, &c, fl) })
 }
 
 fn shrink(t: &[String]) -> Vec<Vec<String>> { shrink_flavoured(t, shrink0) }
@@ -112,7 +115,7 @@ fn shrink0(t: &[String]) -> Vec<Vec<String>> {
         if r.end > r.start + 1 { let mut d = c.clone(); d.regions[i].end = r.start + (r.end - r.start) / 2; out.push(d); }
         if r.start > 0 { let mut d = c.clone(); let s = r.start / 2; let dd = r.start - s; d.regions[i].start = s; d.regions[i].end -= dd; out.push(d); }
     }
-    if c.ty != 0 { out.push(C { ty: 0, ..c.clone() }); }
+    if c.ty >= 2 { out.push(C { ty: if ty_range(c.ty).0 { 0 } else { 1 }, ..c.clone() }); } else if c.ty != 0 { out.push(C { ty: 0, ..c.clone() }); }
     out.into_iter().filter(valid).map(|c| enc(&c)).collect()
 }
 
@@ -121,7 +124,9 @@ fn gen(rng: &mut Rng, tier: Tier) -> Vec<Case> {
     let n_cases = match tier { Tier::Quick => 600, Tier::Thorough => 10000 };
     for i in 0..n_cases {
         let small = i % 4 != 0;
-        let ty = rng.below(2);
+        let ty = if i % 3 == 2 { rng.below(N_TYPES) } else { rng.below(2) };
+        let (signed, tmax) = ty_range(ty);
+        let long_total = ty >= 2 && tmax <= 65535 && rng.chance(2, 3);
         let nch = rng.range(1, 2) as usize;
         let chroms: Vec<&str> = gen_chroms(rng, nch);
         let n = if i % 30 == 0 { 0 } else if small { rng.range(1, 4) as usize } else { rng.range(3, 25) as usize };
@@ -130,11 +135,24 @@ fn gen(rng: &mut Rng, tier: Tier) -> Vec<Case> {
         let regions = gen_regions(rng, n, max, base, &chroms);
         let some_len = regions.first().map(|r| r.end - r.start).unwrap_or(5);
         let bin = match rng.below(6) { 0 => 1, 1 => some_len, 2 => some_len + rng.range(1, 3), 3 if some_len > 1 => (some_len / rng.range(2, 4)).max(1), _ => rng.range(1, max / 2 + 1) };
-        let nops = if small { rng.range(1, 6) } else { rng.range(3, 20) } as usize;
+        let nops = if long_total { rng.range(100, 260) } else if small { rng.range(1, 6) } else { rng.range(3, 20) } as usize;
         let mut ops = vec![];
         for _ in 0..nops {
-            let k = match rng.below(6) { 0 => 0, 1 if ty == 0 => -(rng.range(1, 5) as i64), _ => rng.range(1, 4) as i64 };
-            if rng.chance(1, 10) { ops.push(Op::Reset); continue; }
+            let k = match rng.below(6) { 0 => 0, 1 if signed => -(rng.range(1, 5) as i64), _ => rng.range(1, 4) as i64 };
+            if rng.chance(1, if long_total { 100 } else { 10 }) { ops.push(Op::Reset); continue; }
+            // a long history whose TOTAL leaves a narrow counter type's range while no bin's count does
+            if long_total && rng.chance(19, 20) { ops.push(Op::Tag(Rec::new("chrNoRegion", 5, 9), if tmax <= 255 { rng.range(1, 4) as i64 } else { rng.range(200, 400) as i64 })); continue; }
+            // multiplicities that cancel exactly in different bins, then a reset: the total is 0 while counts are not
+            if signed && !regions.is_empty() && rng.chance(1, 10) {
+                let r = ops.iter().rposition(|o| matches!(o, Op::Reset)).map(|p| p + 1).unwrap_or(0);
+                let bal: i64 = ops[r..].iter().map(|o| match o { Op::Tag(_, k) => *k, _ => 0 }).sum();
+                let kk = rng.range(1, 4) as i64;
+                ops.push(Op::Tag(gen_tag(rng, &regions, max, base, &chroms), kk));
+                ops.push(Op::Tag(gen_tag(rng, &regions, max, base, &chroms), -(bal + kk)));
+                ops.push(Op::Reset);
+                ops.push(Op::Tag(gen_tag(rng, &regions, max, base, &chroms), 1));
+                continue;
+            }
             // tags whose ends sit exactly on bin edges, single-base tags, tags spanning everything
             let tag = if !regions.is_empty() && rng.chance(1, 2) {
                 let r = rng.pick(&regions).clone();
@@ -159,6 +177,7 @@ fn gen(rng: &mut Rng, tier: Tier) -> Vec<Case> {
             for r in c.regions.iter_mut() { r.start += d; r.end += d; }
             for o in c.ops.iter_mut() { if let Op::Tag(t, _) = o { t.start += d; t.end += d; } }
         }
+        if !valid(&c) { c.ty = if signed { 0 } else { 1 }; }
         if valid(&c) { out.push(Case::new(if small { "boundary" } else { "random" }, enc(&c))); }
     }
     add_flavours(rng, &mut out);
